@@ -147,7 +147,7 @@ func TestVerif_C15_SeqPriority(t *testing.T) {
 			}
 			return false
 		}
-		cmax := rapid.SampledFrom([]uint64{2, 5, 50, 1 << 40}).Draw(rt, "cmax")
+		cmax := rapid.SampledFrom([]uint64{2, 5, 50, 1 << 40, ^uint64(0)}).Draw(rt, "cmax") // the counter comes from the sender's header: any uint64
 		rt.Repeat(map[string]func(*rapid.T){
 			"add": func(rt *rapid.T) {
 				c := rapid.Uint64Range(0, cmax).Draw(rt, "c")
